@@ -46,7 +46,7 @@ def run(unit, only=None, timeout=1500):
         shutil.copytree(REPO, ws, ignore=ign)
         root = os.path.join(ws, "crates", m["crate_dir"], m.get("root", "src/lib.rs"))
         with open(root, "a") as f:
-            f.write("\n#[cfg(test)]\nmod verif_witness { include!(\"%s\"); }\n" % os.path.join(VERIF, "units", unit, "witness.rs"))
+            f.write("\n#[cfg(test)]\nmod verif_witness { include!(\"%s\"); }\n" % os.path.join(VERIF, "units", m.get("driver_unit", unit), "witness.rs"))
         env = dict(os.environ)
         env["CARGO_NET_OFFLINE"] = "true"
         # Build cache, outside /repo and /verif, KEYED BY THE CONTENT of the copied sources: cargo decides freshness by
